@@ -96,15 +96,21 @@ theorem dependents_blocked {g : List NodeInfo} {s : State} {o : Obj} (hr : Reach
   · simp [hs] at hd
 
 /-- "a node with an unfinished prenode is never complete": while some prenode `p`
-of `q` is not finished, no fork of `q` has a `_complete` and `q` is not Complete. -/
+of `q` is not finished, no fork of `q` has a `_complete` and `q` is not Complete.
+Hypothesis `reopened = false`: no restart so far gave an already finished node
+new forks (`RestoreForks` does that to a Disabled mapped call whose placeholder
+fork had been disabled before its forks were known — seen on real histories; the
+node is then unfinished again for a moment although its consumers may be
+complete).  The flag is sticky, so the theorem covers every history up to the
+first such restart, in particular every uninterrupted run. -/
 theorem unfinished_prenode_blocks_completion {g : List NodeInfo} {s : State} {q p : Nat}
-    (hr : Reach g s) (hp : p ∈ s.pre q) (hnd : nodeDone s p = false) :
+    (hr : Reach g s) (hro : s.reopened = false) (hp : p ∈ s.pre q) (hnd : nodeDone s p = false) :
     (∀ f, (s.m ⟨q, f, .fork⟩).disk.has .complete = false) ∧ nodeState s q ≠ .complete := by
   have hall : ∀ f, (s.m ⟨q, f, .fork⟩).disk.has .complete = false := by
     intro f
     cases hc : (s.m ⟨q, f, .fork⟩).disk.has .complete
     · rfl
-    · have := reach_completeInv hr q f hc p hp
+    · have := reach_completeInv hr hro q f hc p hp
       rw [hnd] at this; cases this
   refine ⟨hall, fun hc => ?_⟩
   obtain ⟨f, hf⟩ := nodeState_complete_fork (reach_objsInv hr) hc
@@ -114,20 +120,20 @@ theorem unfinished_prenode_blocks_completion {g : List NodeInfo} {s : State} {q 
 prenode edges; see `Upstream`: intermediate nodes that are Disabled do not
 propagate, exactly as in `Node.getState`) is finished -/
 theorem launch_after_upstream {g : List NodeInfo} {s : State} {o : Obj} {p : Nat}
-    (hr : Reach g s) (hen : enabled s (.launch o) = true) (hu : Upstream s o.n p) :
-    nodeDone s p = true := by
-  apply upstream_done (reach_objsInv hr) (reach_completeInv hr) hu
+    (hr : Reach g s) (hro : s.reopened = false) (hen : enabled s (.launch o) = true)
+    (hu : Upstream s o.n p) : nodeDone s p = true := by
+  apply upstream_done (reach_objsInv hr) (reach_completeInv hr) hro hu
   intro q hq
   exact (dependents_blocked hr hen q hq).1
 
 /-- `dependents_blocked_transitive`: while an upstream node `p` of `n` has a failed
 fork, no job of `n` can be submitted. -/
 theorem dependents_blocked_transitive {g : List NodeInfo} {s : State} {o : Obj} {p f : Nat}
-    (hr : Reach g s) (hu : Upstream s o.n p) (hf : f ∈ s.forksOf p)
+    (hr : Reach g s) (hro : s.reopened = false) (hu : Upstream s o.n p) (hf : f ∈ s.forksOf p)
     (hfail : forkState s p f = .failed) : enabled s (.launch o) = false := by
   cases hen : enabled s (.launch o)
   · rfl
-  · have hd := launch_after_upstream hr hen hu
+  · have hd := launch_after_upstream hr hro hen hu
     have := forkState_done.mpr (nodeDone_iff.mp hd f hf)
     rw [hfail] at this
     rcases this with h | h <;> cases h
@@ -201,6 +207,7 @@ example : (match replay (init g3) h3 with | .ok _ => true | .error _ => false) =
 
 /-- node 0 is upstream of node 2 (through node 1, which is waiting, not disabled),
 node 0 has a failed fork, and indeed nothing of node 2 can be launched -/
+example : s3.reopened = false := by decide
 example : Upstream s3 2 0 := .step (q := 1) (by decide) (by decide) (.direct (by decide))
 example : 0 ∈ s3.forksOf 0 ∧ forkState s3 0 0 = .failed ∧
     enabled s3 (.launch ⟨2, 0, .chunk 0⟩) = false := by decide
